@@ -72,7 +72,7 @@ type WGen struct {
 	ConfigFocus bool
 }
 
-var allFaults = []string{"post_lost_before", "post_lost_after", "sidecar_restart", "shard_not_ready", "shard_unreachable", "external_scale", "config_out_of_sync", "get_fail", "prom_reload_fails", "prom_stalled", "pod_terminating"}
+var allFaults = []string{"post_lost_before", "post_lost_after", "sidecar_restart", "shard_not_ready", "shard_unreachable", "external_scale", "config_out_of_sync", "get_fail", "prom_reload_fails", "prom_stalled", "pod_terminating", "prom_api_down"}
 
 // GenWorld draws a world scenario.
 func GenWorld(tp *core.Tape, g WGen) *WScenario {
